@@ -17,6 +17,7 @@
      many as the first. *)
 From Coq Require Import ZArith List Bool.
 From Knut Require Import Model.Bytes Model.Csv Model.ImpCommonA Model.CsvImp Proofs.CsvProofs Proofs.CsvRoundtrip.
+From Knut Require Import Model.CsvLatin1 Proofs.CsvLatin1Proofs Spec.CsvSettings Proofs.CsvLazy.
 Import ListNotations.
 Open Scope Z_scope.
 
@@ -138,3 +139,96 @@ Example C13_csv_example_trim :
   csv_read_all (mk_cfg 44 (-1) false true) [32;97;44;194;160;227;128;128;34;32;98;34;10; 32;9;10]
   = CsvRecords [[[97]; [32;98]]; [[]]].
 Proof. vm_compute. reflexivity. Qed.
+
+(* ---------------------------------------------------------------- ch.supercard's reader (Model/CsvLatin1.v) *)
+(* charmap.ISO8859_1's decoder, byte b -> code point b -> UTF-8.  It is total on byte strings (the result is a byte string
+   of one or two bytes per byte); every byte decodes to the UTF-8 encoding of the code point with its number ... *)
+Theorem C13_latin1_decode_total : forall s, Forall (fun b => 0 <= b < 256) s ->
+  Forall (fun c => 0 <= c < 256) (latin1_decode s) /\
+  (length s <= length (latin1_decode s) <= 2 * length s)%nat.
+Proof. exact latin1_decode_bytes. Qed.
+Print Assumptions C13_latin1_decode_total.
+
+Theorem C13_latin1_byte_utf8 : forall b, 0 <= b < 256 ->
+  (b < 128 /\ latin1_byte b = [b]) \/
+  (128 <= b /\ exists c1 c2, latin1_byte b = [c1; c2] /\ 194 <= c1 <= 195 /\ 128 <= c2 < 192 /\
+                            (c1 - 192) * 64 + (c2 - 128) = b).
+Proof. exact latin1_byte_spec. Qed.
+Print Assumptions C13_latin1_byte_utf8.
+
+(* ... ASCII text is unchanged, and no two statements decode to the same text *)
+Theorem C13_latin1_decode_ascii : forall s, Forall (fun b => b < 128) s -> latin1_decode s = s.
+Proof. exact latin1_decode_ascii. Qed.
+Print Assumptions C13_latin1_decode_ascii.
+
+Theorem C13_latin1_decode_injective : forall s t,
+  Forall (fun b => 0 <= b < 256) s -> Forall (fun b => 0 <= b < 256) t ->
+  latin1_decode s = latin1_decode t -> s = t.
+Proof. exact latin1_decode_inj. Qed.
+Print Assumptions C13_latin1_decode_injective.
+
+(* the reader whose FieldsPerRecord is assigned between the calls of Read: never out of fuel; without assignments it is
+   csv_read_all; supercard's items are records, possibly followed by CBad *)
+Theorem C13_csv_set_total : forall (cfg : csv_cfg) (sets : list Z) (input : str),
+  (exists rs, csv_read_all_set cfg sets input = CsvRecords rs) \/
+  (exists before e, csv_read_all_set cfg sets input = CsvError before e).
+Proof. exact csv_read_all_set_total. Qed.
+Print Assumptions C13_csv_set_total.
+
+Theorem C13_csv_set_nil : forall (cfg : csv_cfg) (input : str), csv_read_all_set cfg [] input = csv_read_all cfg input.
+Proof. exact csv_read_all_set_nil. Qed.
+Print Assumptions C13_csv_set_nil.
+
+Theorem C13_csv_items_supercard_shape : forall file : str,
+  exists rs, csv_items_supercard file = map CRec rs \/ csv_items_supercard file = map CRec rs ++ [CBad].
+Proof. exact csv_items_supercard_shape. Qed.
+Print Assumptions C13_csv_items_supercard_shape.
+
+(* "Zürich" + NBSP in ISO 8859-1 *)
+Example C13_latin1_example : latin1_decode [90;252;114;105;99;104;160] = [90;195;188;114;105;99;104;194;160].
+Proof. vm_compute. reflexivity. Qed.
+
+(* "sep=;" has two fields, the header (here a;b;...;m) thirteen, then any count goes; a first line with one field, or
+   a header with twelve, stops the reader *)
+Definition ex_sup_header : str := [97;59;98;59;99;59;100;59;101;59;102;59;103;59;104;59;105;59;106;59;107;59;108;59;109;10].
+Example C13_supercard_example_items :
+  csv_items_supercard ([115;101;112;61;59;10] ++ ex_sup_header ++ [120;59;252;10; 160;121;10])
+  = [CRec [[115;101;112;61]; []]; CRec [[97];[98];[99];[100];[101];[102];[103];[104];[105];[106];[107];[108];[109]];
+     CRec [[120]; [195;188]]; CRec [[121]]].
+Proof. vm_compute. reflexivity. Qed.
+Example C13_supercard_example_first_line : csv_items_supercard ([115;101;112;61;10] ++ ex_sup_header) = [CBad].
+Proof. vm_compute. reflexivity. Qed.
+Example C13_supercard_example_header :
+  csv_items_supercard [115;101;112;61;59;10; 97;59;98;10] = [CRec [[115;101;112;61]; []]; CBad].
+Proof. vm_compute. reflexivity. Qed.
+
+(* ---------------------------------------------------------------- what LazyQuotes can change *)
+(* Whatever a reader accepts - every record read, io.EOF reached - the same reader with LazyQuotes = true reads in the
+   same way.  For the importers with a strict reader (swisscard2, swisscard, revolut2, revolut, wise; supercard below)
+   switching LazyQuotes on therefore changes nothing on any statement the importer gets records from: the setting shows
+   only on statements the strict reader rejects (the damaged kind `quote` of harness/c13a.go, c13b.go). *)
+Theorem C13_csv_lazy_conservative : forall (cfg : csv_cfg) (input : str) (rs : list (list str)),
+  csv_read_all cfg input = CsvRecords rs -> csv_read_all (set_lazy cfg) input = CsvRecords rs.
+Proof. exact csv_read_all_lazy. Qed.
+Print Assumptions C13_csv_lazy_conservative.
+
+Theorem C13_csv_set_lazy_conservative : forall (cfg : csv_cfg) (sets : list Z) (input : str) (rs : list (list str)),
+  csv_read_all_set cfg sets input = CsvRecords rs -> csv_read_all_set (set_lazy cfg) sets input = CsvRecords rs.
+Proof. exact csv_read_all_set_lazy. Qed.
+Print Assumptions C13_csv_set_lazy_conservative.
+
+(* revolut2.go with `p.reader.LazyQuotes = true` added is set_lazy cfg_revolut2; the hypothesis is satisfiable (a
+   statement line with a padded, quoted description); the converse fails: a bare quote is rejected by the strict reader
+   and read by the lazy one *)
+Example C13_csv_lazy_revolut2 : set_lazy cfg_revolut2 = mk_cfg 44 10 true true.
+Proof. reflexivity. Qed.
+Definition ex_r2_line : str :=
+  [97;44;98;44;99;44;100;44;32;34;120;44;32;34;34;121;34;34;34;44;49;44;48;44;67;44;79;75;44;50;13;10].
+Example C13_csv_lazy_example_accepted :
+  csv_read_all cfg_revolut2 ex_r2_line = CsvRecords [[[97];[98];[99];[100];[120;44;32;34;121;34];[49];[48];[67];[79;75];[50]]] /\
+  csv_read_all (set_lazy cfg_revolut2) ex_r2_line = csv_read_all cfg_revolut2 ex_r2_line.
+Proof. vm_compute. split; reflexivity. Qed.
+Example C13_csv_lazy_example_rejected :
+  csv_read_all (mk_cfg 44 2 false true) [97;34;98;44;99;10] = CsvError [] ErrBareQuote /\
+  csv_read_all (set_lazy (mk_cfg 44 2 false true)) [97;34;98;44;99;10] = CsvRecords [[[97;34;98];[99]]].
+Proof. vm_compute. split; reflexivity. Qed.
